@@ -301,7 +301,8 @@ pub fn restrictions(net: &Net, tier: Tier) -> Vec<Restr> {
         vec![(0..m).map(|e| (e % 2) as u8).collect(), (0..m).map(|e| ((e + idx) % 3 == 0) as u8).collect(), (0..m).map(|e| (e == 0) as u8).collect()]
     };
     for (ti, t) in tables.iter().enumerate() {
-        for (qi, q) in [Some(json!([0])), Some(json!([1])), Some(json!([0, 1])), Some(json!(["highway"])), Some(json!(["local", "highway"])), None].iter().enumerate() {
+        // (the empty set allows nothing; no key at all means no restriction)
+        for (qi, q) in [Some(json!([0])), Some(json!([1])), Some(json!([0, 1])), Some(json!(["highway"])), Some(json!(["local", "highway"])), None, Some(json!([]))].iter().enumerate() {
             if tier == Tier::Quick && (ti + qi + idx) % 2 != 0 {
                 continue;
             }
